@@ -12,6 +12,9 @@ CLAIMED = {
  "C19": dict(cat="exploration", ref="4.4", technique="deterministic simulation: three scripted event sources (UI, host, MIDI incl. split NRPN sequences) interleaved by the seeded plan against the real AutomationMgr; model-checked op by op",
    text="Seeded interleavings (1..40 ops) of UI, plugin-host and MIDI-device events against the real automations.cpp bound to a real macro-generated port tree; the manager lives in simulator-prefilled memory. After every op the learn position of every slot, the queue length and the controller bindings are compared with a FIFO model; every backend message is checked for address, type, range, exact linear mapping at default gain/offset (1e-5 relative for log scale), monotonicity on paired probes, and is dispatched into the real port. Sampling, not proof.",
    note="Trusted: the model of the learn queue and NRPN assembly, hand-copied declared ranges. Where the statement is silent (learn request on a bound or waiting slot) the model accepts 'ignored' or 'appended'. Bindable parameters: int, float (linear/log), toggle, bounded option."),
+ "C14": dict(cat="exploration", ref="4.7", technique="deterministic simulation used as history generator: user, real UndoHistory (delayed event FIFO, simulated clock) and real AutomationMgr all deliver parameter messages to one real macro-generated port tree; refinement check against a model after every dispatch",
+   text="Every macro-generated port kind (char/int/float parameters with negative, fractional and absent bounds, options with and without bounds and enum storage, toggles, strings, all array forms, enumerated/pointer/plain sub-trees) receives seeded histories of sets and queries from the user, undo/redo messages from the real undo history and automation output; after each single dispatch every field of the object, every reply/broadcast and every undo event is compared with a model written from the property text. No schedule dependence of its own: the simulator contributes multi-party histories, minimisation and replay. Sampling, not proof.",
+   note="Trusted: the hand-written leaf table (declared ranges repeated by hand) and model in apps/appnode.h. Unknown option symbols, NaN and -0.0 are not generated; char-backed kinds are driven with -128..127 only (as the property states). Absence of a broadcast when nothing changed is not required."),
 }
 PENDING = {}
 NA = {
